@@ -257,8 +257,8 @@ def run_case(case):
     if case.get("engine") == "H":
         return run_heartbeat_file(case)
     T0 = case["timeout"]
-    # the timeout may change at a reload: deadlines for hung workers use the largest value ever configured (lenient),
-    # the "healthy workers are never killed" clause holds for every value
+    # the timeout may change at a reload: see allowed() below for the value a hung worker is judged by; the "healthy workers are
+    # never killed" clause holds for every value
     T = max([T0] + [e[2] for e in case["events"] if e[0] == "hup" and len(e) > 2])
     k = ksim.Kernel(case["sched"], case["events"], quiesce_steps=T + 8)
     out = ksim.run_arbiter(k, {"workers": case["workers"], "timeout": T0, "graceful_timeout": 3})
@@ -287,11 +287,20 @@ def run_case(case):
               {"kill": e, "heartbeat_age": e["hb_age"], "worker_wait_bound": e["wtimeout"], "timeout": T},
               "no ABRT/KILL for a worker whose heartbeat age stays within its bound")
             break
-    # hung workers are aborted, then killed, in time
+    # hung workers are aborted, then killed, in time.  The timeout a worker is judged by: the one configured when it was forked, or
+    # any value configured later (a reload may change it) - but not one that was replaced before the worker existed
+    timeline = [(0.0, T0)] + [(ev[3], ev[2]) for ev in k.applied_events if ev[0] == "hup" and len(ev) == 4 and isinstance(ev[2], int) and ev[2] > 0]
+
+    def allowed(proc):
+        before = [t for (at, t) in timeline if at < proc.born - 1e-9]
+        since = [t for (at, t) in timeline if at >= proc.born - 1e-9]
+        return max(before[-1:] + since)
+
     if not vio:
         for _, pid, mode, when in hangs:
             p = k.procs[pid]
             hb = p.hb
+            Tw = allowed(p)
             sigs = [(t, s) for (t, s) in p.signals]
             died = [t for t in k.trace if t[0] == "died" and t[1] == pid]
             abrt = [t for (t, s) in sigs if s == int(signal.SIGABRT)]
@@ -303,8 +312,9 @@ def run_case(case):
                 V("hung-aborted", "hung-worker-never-aborted", {"pid": pid, "last_heartbeat": hb, "end": k.clock, "signals": sigs},
                   "SIGABRT within timeout+2")
                 break
-            if abrt and abrt[0] > hb + T + 2 + 1e-6:
-                V("hung-aborted", "hung-worker-aborted-late", {"pid": pid, "abort_after": abrt[0] - hb, "timeout": T}, "<= timeout+2")
+            if abrt and abrt[0] > hb + Tw + 2 + 1e-6:
+                V("hung-aborted", "hung-worker-aborted-late", {"pid": pid, "abort_after": abrt[0] - hb, "timeout": Tw, "born": p.born,
+                                                               "timeouts_configured": timeline}, "<= timeout+2")
                 break
             if mode == "hung-ignore-abrt" and abrt:
                 if not kill:
